@@ -72,6 +72,10 @@ def main():
             run_suite(wt, BASE_XML)
         ap_ = subprocess.run(["git", "-C", str(wt), "apply", str(Path(a.patch).resolve())], capture_output=True, text=True)
         if ap_.returncode != 0:
+            ap_ = subprocess.run(["git", "-C", str(wt), "apply", "--3way", str(Path(a.patch).resolve())],
+                                 capture_output=True, text=True)
+            subprocess.run(["git", "-C", str(wt), "reset", "-q"], capture_output=True)
+        if ap_.returncode != 0:
             print("patch does not apply:", ap_.stderr)
             return 3
         imp = subprocess.run([PY, "-c", "import scippneutron, scippneutron.io.sqw, scippneutron.io.cif, scippneutron.peaks, "
